@@ -10,7 +10,7 @@
 mod build;
 
 use ant_evm::EvmNetwork;
-use ant_networking::verif_hooks::{cmd as nethooks, NetworkSwarmCmd};
+use ant_networking::verif_hooks::{cmd as nethooks, LocalSwarmCmd, NetworkSwarmCmd};
 use ant_networking::{MsgResponder, Network, NetworkBuilder, NetworkError, NetworkEvent, SwarmDriver};
 use ant_node::verif_hooks::VerifNode;
 use ant_node::NodeEventsChannel;
@@ -71,6 +71,67 @@ fn distance_u256(peer: &PeerId, key: &RecordKey) -> ant_evm::U256 {
     ant_evm::U256::from_be_bytes(x)
 }
 
+/// distance between two peers, the same independent way (SHA-256 of the PeerId bytes, XOR, big-endian)
+fn peer_distance_u256(a: &PeerId, b: &PeerId) -> ant_evm::U256 {
+    use sha2::{Digest, Sha256};
+    let a = Sha256::digest(a.to_bytes());
+    let b = Sha256::digest(b.to_bytes());
+    let mut x = [0u8; 32];
+    for i in 0..32 {
+        x[i] = a[i] ^ b[i];
+    }
+    ant_evm::U256::from_be_bytes(x)
+}
+
+/// every routing-table peer of node `i` (what kademlia's own iterator over the table yields), each with
+/// its independently computed distance to the node, nearest first by THAT distance
+fn routing_table_by_distance(sim: &mut Sim, i: usize) -> Vec<(PeerId, ant_evm::U256)> {
+    let me = sim.nodes[i].peer;
+    let self_addr = NetworkAddress::from_peer(me);
+    let mut l: Vec<(PeerId, ant_evm::U256)> = nethooks::closest_local_peers(&mut sim.nodes[i].driver, &self_addr)
+        .into_iter()
+        .map(|p| (p, peer_distance_u256(&me, &p)))
+        .collect();
+    l.sort_by(|a, b| a.1.cmp(&b.1));
+    l
+}
+
+/// the record store's range asked for by a `set_range` op of node `i`:
+/// "max" | {"key": k, "below"|"above": bool} | {"among": [k..], "rank": r, "delta": -1|0|1}
+/// (`among`/`rank`: the distance of the r-th nearest, 0-based, of the listed keys to node `i`)
+fn range_of_spec(sim: &mut Sim, i: usize, spec: &Value) -> ant_evm::U256 {
+    let one = ant_evm::U256::from(1u8);
+    if spec.as_str() == Some("max") {
+        return ant_evm::U256::MAX;
+    }
+    if let Some(keys) = spec.get("among").and_then(|v| v.as_array()) {
+        let mut ds: Vec<ant_evm::U256> = keys
+            .iter()
+            .map(|kv| {
+                let k = build::key(&mut sim.reg, kv);
+                distance_u256(&sim.nodes[i].peer, &k)
+            })
+            .collect();
+        ds.sort();
+        let r = (spec["rank"].as_u64().unwrap_or(0) as usize).min(ds.len().saturating_sub(1));
+        let d = ds.get(r).copied().unwrap_or(ant_evm::U256::MAX);
+        return match spec["delta"].as_i64().unwrap_or(0) {
+            x if x < 0 => d.saturating_sub(one),
+            0 => d,
+            _ => d.saturating_add(one),
+        };
+    }
+    let k = build::key(&mut sim.reg, &spec["key"]);
+    let d = distance_u256(&sim.nodes[i].peer, &k);
+    if spec["below"].as_bool().unwrap_or(false) {
+        d.saturating_sub(one)
+    } else if spec["above"].as_bool().unwrap_or(false) {
+        d.saturating_add(one)
+    } else {
+        d
+    }
+}
+
 fn rtype_json(t: &RecordType) -> Value {
     match t {
         RecordType::Chunk => json!("chunk"),
@@ -125,6 +186,10 @@ async fn settle(sim: &mut Sim, step: &mut Vec<Value>) {
         for i in 0..sim.nodes.len() {
             while let Some(cmd) = sim.nodes[i].driver.verif_try_recv_local_cmd() {
                 progress = true;
+                if let LocalSwarmCmd::PutLocalRecord { record } = &cmd {
+                    // the point where the driver copies the store's range into the fetcher
+                    step.push(json!({"node": i, "put_local": build::key_name(&sim.reg, record.key.as_ref())}));
+                }
                 if let Err(e) = nethooks::handle_local_cmd(&mut sim.nodes[i].driver, cmd) {
                     step.push(json!({"node": i, "local_cmd_err": format!("{e:?}")}));
                 }
@@ -239,7 +304,28 @@ fn dump_node(sim: &mut Sim, i: usize) -> Value {
         .map(|(k, t, p)| json!([build::key_name(&sim.reg, k.as_ref()), rtype_json(t), peer_index(sim, p)]))
         .collect();
     qd.sort_by_key(|v| v.to_string());
-    json!({"held": held, "closest_k": closest, "candidates": cands, "range": range, "inflight": infl, "queued": qd})
+    // the routing table as kademlia's own iterator yields it (peer indices)
+    let rt: Vec<i64> = nethooks::closest_local_peers(&mut sim.nodes[i].driver, &self_addr).iter().map(|p| peer_index(sim, p)).collect();
+    json!({"held": held, "closest_k": closest, "candidates": cands, "range": range, "inflight": infl, "queued": qd, "rt": rt})
+}
+
+/// final dump only: the distance from node `i` to EVERY key the case mentioned and to every peer of its
+/// routing table, computed here (SHA-256 XOR) independently of the repository
+fn dump_distances(sim: &mut Sim, i: usize, node: &mut Value) {
+    let me = sim.nodes[i].peer;
+    let mut dists: Vec<Value> = sim
+        .reg
+        .keys
+        .iter()
+        .map(|(kb, name)| json!([name, distance_u256(&me, &RecordKey::from(kb.clone())).to_string()]))
+        .collect();
+    dists.sort_by_key(|v| v.to_string());
+    let peer_dists: Vec<Value> = routing_table_by_distance(sim, i)
+        .iter()
+        .map(|(p, d)| json!([peer_index(sim, p), d.to_string()]))
+        .collect();
+    node["dists"] = Value::Array(dists);
+    node["peer_dists"] = Value::Array(peer_dists);
 }
 
 fn snapshot(sim: &mut Sim, eff: Value, log: Vec<Value>) -> Value {
@@ -297,15 +383,10 @@ async fn run_case_async(case: &Value) -> Value {
                 // the record store's responsible distance range of node `node`:
                 // "max", or just below / exactly at the distance of a key
                 let i = op["node"].as_u64().unwrap() as usize;
-                let range = if op["range"].as_str() == Some("max") {
-                    ant_evm::U256::MAX
-                } else {
-                    let k = build::key(&mut sim.reg, &op["range"]["key"]);
-                    let d = distance_u256(&sim.nodes[i].peer, &k);
-                    if op["range"]["below"].as_bool().unwrap_or(false) { d.saturating_sub(ant_evm::U256::from(1u8)) } else { d }
-                };
+                let range = range_of_spec(&mut sim, i, &op["range"]);
                 nethooks::set_responsible_distance_range(&mut sim.nodes[i].driver, range);
                 step.push(json!({"range": range.to_string()}));
+                eff["value"] = json!(range.to_string());
             }
             "seed" => {
                 // a record enters node `node` through the real replication-path validation
@@ -334,7 +415,17 @@ async fn run_case_async(case: &Value) -> Value {
             "advert" => {
                 // an explicit replication list, e.g. claiming a holder that is not a close peer
                 let to = op["to"].as_u64().unwrap() as usize;
-                let holder = match op["holder"].as_i64().unwrap() {
+                if let Some(r) = op["holder"].get("rank").and_then(|v| v.as_u64()) {
+                    // the r-th nearest (1-based) routing-table peer of the receiver, by the distance
+                    // computed here; the concrete peer goes into the step's effective op
+                    let rt = routing_table_by_distance(&mut sim, to);
+                    let pos = (r.max(1) as usize - 1).min(rt.len().saturating_sub(1));
+                    let idx = rt.get(pos).map(|(p, _)| peer_index(&sim, p)).unwrap_or(-3);
+                    eff["holder"] = json!(if idx >= 100 { idx - 100 } else { idx });
+                    eff["rank"] = json!(pos + 1);
+                    eff["table_size"] = json!(rt.len());
+                }
+                let holder = match eff["holder"].as_i64().unwrap() {
                     h if h >= 0 && (h as usize) < sim.nodes.len() => NetworkAddress::from_peer(sim.nodes[h as usize].peer),
                     -3 => NetworkAddress::from_chunk_address(ant_protocol::storage::ChunkAddress::new(xor_name::XorName([7u8; 32]))),
                     h => NetworkAddress::from_peer(build::peer_id(h)),
@@ -418,7 +509,9 @@ async fn run_case_async(case: &Value) -> Value {
     }
     let mut fin = vec![];
     for i in 0..sim.nodes.len() {
-        fin.push(dump_node(&mut sim, i));
+        let mut d = dump_node(&mut sim, i);
+        dump_distances(&mut sim, i, &mut d);
+        fin.push(d);
     }
     let pending: Vec<Value> = sim.pool.iter().map(|m| msg_json(&sim, m)).collect();
     json!({"steps": steps, "final": fin, "undelivered": pending, "notes": sim.notes})
